@@ -730,7 +730,16 @@ def r20_2(ctx, rr):
     nexts = [x for x in F.fns() if x.name == "next" and (x.impl_adt or "").endswith(("LineLender",)) and x.impl_trait and x.impl_trait.endswith("Lender")]
     for x in nexts:
         rr.instances += 1
-        rr.check(show(F, x.body).replace(" ", "") in ("{lenders::next(&mutself.buf,&mutself.line)}",), "%s:shared-reader" % short_fn(x.key), "%s must delegate to the shared line reader on (buf, line)" % x.key, x.span)
+        # the body is one call of the shared reader (whatever it is called now) on the lender's reader and buffer
+        tail = x.body.get("expr") if x.body.get("k") == "Block" and not x.body.get("stmts") else None
+        deleg = False
+        if tail is not None and tail.get("k") == "Call" and F.callee(tail) in (nb.path,) and len(tail.get("args", [])) == 2:
+            def fld(a_):
+                while a_.get("k") in ("AddrOf",) or (a_.get("k") == "Unary" and a_.get("op") == "*"):
+                    a_ = a_["e"]
+                return a_.get("name") if a_.get("k") == "Field" and a_["e"].get("k") == "Path" and a_["e"].get("name") == "self" else None
+            deleg = (fld(tail["args"][0]), fld(tail["args"][1])) == ("buf", "line")
+        rr.check(deleg, "%s:shared-reader" % short_fn(x.key), "%s must delegate to the shared line reader on (buf, line)" % x.key, x.span)
     if len(nexts) < 3:
         raise AnchorMissing("expected 3 line lenders using the shared reader, found %d" % len(nexts))
 
